@@ -13,11 +13,14 @@ from ..domain import is_esc
 from .registries import REGISTRIES, _membership_tests, _registry_stores
 from .siblings import enum_builder_parity, enum_merge_parity
 
-LEVEL = ("structural clauses: sibling parity of the two enum builders and of the two enum merge functions (alpha-normalised "
-         "statement comparison); member-name stores dominated by a duplicate test on the same key; closed decode (enum "
-         "construct calls the class, the literal check function tests membership and its fall-through raises, const construct "
-         "compares and raises), encode is .value / identity; member values reach the class through a string context with a "
-         "single escaping (label analysis of the emission site).")
+LEVEL = ("structural clauses: semantic facts of each enum builder and of each enum merge function, checked per sibling by simulating "
+         "its control flow under scenarios (null extraction by identity, only-null -> NoneProperty, single supported value type, null "
+         "member -> nullable union, members from the null-free list, a taken class name reused only by the same class with the same "
+         "member table, default converted before registration; subset merge in both directions, value-type compatibility); "
+         "member-name stores dominated by a duplicate test on the same key; closed decode (enum construct calls the class, the "
+         "literal check function tests membership and its fall-through raises, const construct compares and raises), encode is "
+         ".value / identity; member values reach the class through a string context with a single escaping (label analysis of the "
+         "emission site), Literal members through repr only.")
 
 
 def run(rep: Report, ctx: Any) -> str:
@@ -108,8 +111,9 @@ def run(rep: Report, ctx: Any) -> str:
     n_v = 0
     for e in ji.emissions.values():
         # the member value: second component of the loop over enum.values (canonical loop variable `ITER[*].1`)
+        # (in the literal template every expression that reads the member set emits values, whatever it converts them with)
         if e.template in ("str_enum.py.jinja", "int_enum.py.jinja") and re.search(r"enum\.values[^ ]*?\[\*\]\.1\b", e.expr) or \
-                (e.template == "literal_enum.py.jinja" and "format" in e.expr):
+                (e.template == "literal_enum.py.jinja" and "enum.values" in e.expr):
             n_v += 1
             dbl = {l for l in e.labels if l.startswith("REPR_OF_ESC")}
             rep.check(not dbl, "R14.4", f"{e.template}::{e.expr}#{e.ordinal}@{e.kind}",
@@ -120,6 +124,22 @@ def run(rep: Report, ctx: Any) -> str:
                           "string enum value is not emitted as escaped text inside a \"...\" literal",
                           where=f"{PKG}/templates/{e.template}:{e.line}", lhs=[e.kind, sorted(e.labels)], rhs='ESC in STR1"')
     rep.floor("enum_value_emissions", n_v, 3)
+    # Literal[...] arguments and the members of the VALUES set are Python source: the only conversion that writes every str / int as
+    # a Python literal denoting the same value is repr (`"%r"|format(x)`); str() leaves strings unquoted and tojson writes JSON text
+    # (other escapes: characters outside the BMP become surrogate pairs, which a Python literal does not recombine)
+    from jinja2 import nodes as jn
+
+    n_lit = 0
+    for out in le.tree.find_all(jn.Output):
+        for c in out.nodes:
+            if isinstance(c, jn.TemplateData) or "enum.values" not in norm_j(c):
+                continue
+            n_lit += 1
+            conv = _conversions(c)
+            rep.check(conv == ["format:%r"], "R14.4", f"{le.name}::{norm_j(c)}::python-literal",
+                      "a member value reaches the generated Literal / VALUES set through a conversion that does not produce the Python "
+                      f"literal of the value: {conv or 'none (str())'}", where=f"{PKG}/templates/{le.name}:{c.lineno}", lhs=conv, rhs=["format:%r"])
+    rep.floor("literal_value_outputs", n_lit, 2)
     rep.not_decided.append("behaviour of Enum(value) itself (CPython)")
     return LEVEL
 
@@ -128,3 +148,38 @@ def norm_j(n: Any) -> str:
     from ..jinja_interp import expr_text
 
     return expr_text(n)
+
+
+# filters that select / order / collect elements without touching their text
+_STRUCTURAL = {"list", "sort", "unique", "reverse", "dictsort", "items", "batch", "slice", "select", "reject", "first", "last", "join", "trim",
+               "indent", "safe"}
+
+
+def _conversions(n: Any) -> list[str]:
+    """the conversions applied to the member values on their way from `enum.values` to the output, outermost first"""
+    from jinja2 import nodes as jn
+
+    def reads(x: Any) -> bool:
+        return x is not None and "enum.values" in norm_j(x)
+
+    out: list[str] = []
+    while True:
+        if isinstance(n, jn.Filter):
+            if n.name == "format" and isinstance(n.node, jn.Const) and isinstance(n.node.value, str) and any(reads(a) for a in n.args):
+                specs = set(re.findall(r"%[^%]", n.node.value))
+                out.append("format:" + "".join(sorted(specs)))
+                n = next(a for a in n.args if reads(a))
+                continue
+            if reads(n.node):
+                if n.name == "map":
+                    out.append("map:" + ",".join(norm_j(a).strip("'") for a in n.args) + "".join(f",{k.key}={norm_j(k.value)}" for k in n.kwargs))
+                elif n.name not in _STRUCTURAL:
+                    out.append(n.name)
+                n = n.node
+                continue
+            out.append(f"{n.name}(<values as argument>)")
+            return out
+        if isinstance(n, (jn.Name, jn.Getattr, jn.Getitem)):
+            return out
+        out.append(type(n).__name__)
+        return out
